@@ -107,6 +107,18 @@ def search(ctx, deep):
             texts.append("#program always. { a; b }.\n#program %s. :- &tel { %s }, not a." % (part, tl.render_tel(f)))
         else:
             texts.append("#program always. { a; b }.\n#program %s. q :- not &tel { %s }." % (part, tl.render_tel(f)))
+    # a past formula whose theory atom first exists at a late state (the rule is guarded by an atom that holds in state 2 or 3
+    # only), or exists in states 0 and 3 but not in between: its value then depends on states no formula literal was made for
+    late_texts = []
+    late = [("evP", ("a", "a")), ("alP", ("a", "a")), ("since", ("a", "a"), ("a", "b")), ("trigger", ("a", "a"), ("a", "b")),
+            ("prev", 1, False, ("evP", ("a", "b"))), ("b", "or", ("alP", ("a", "b")), ("prev", 2, True, ("a", "a"))), ("init", ("a", "a"))]
+    late += [strip_final(past_formula(r, r.randint(1, 2), ["a", "b"])) for _ in range(6 if ctx.tier == "quick" else 60)]
+    for f in late:
+        for guard in ("''g0", "'" * 3 + "g0", "g0", "g0, not 'c"):
+            for sign in ("not not ", "not "):
+                body = "{}, {}&tel {{ {} }}".format(guard, sign, tl.render_tel(f))
+                extra = ("#program always. g0 :- " + "'" * 3 + "g0.") if guard == "g0" else ""
+                late_texts.append("#program initial. g0. #program always. { a; b }.\n#program always. q :- %s. %s" % (body, extra))
     # clingo features next to the temporal ones: user externals (both default values), #show, facts with arguments, pools
     feats = ["#program always. #external x. [true]\n", "#program always. #external x. [false]\n#program initial. #external y. [true]\n",
              "#program dynamic. #external x. [true]\n", "#program always. #external x(1..2). [true]\n"]
@@ -118,6 +130,7 @@ def search(ctx, deep):
         texts.append(f + texts[i] + "\n" + use)
     H = 3
     work = [(ctx.seed + j, c, H) for j, c in enumerate(par.chunks(texts, ctx.jobs * 2))]
+    work += [(ctx.seed + j, c, 4) for j, c in enumerate(par.chunks(late_texts, ctx.jobs))]
     npairs = 0
     fails = []
     for c, f in par.pmap(_chunk, work, ctx.jobs):
@@ -138,7 +151,7 @@ def search(ctx, deep):
         c, bad = prefix_violations(stripped, 3, imin=0, imax=4, max_models=(30 if ctx.tier == "quick" else 300), limit=120)
         # with a model limit the set at horizon h is incomplete: only count, do not judge, unless complete
         nex += c
-    return {"programs": len(texts), "prefix_checks": npairs, "example_prefix_checks_informational": nex, "horizons": "0..3",
+    return {"programs": len(texts) + len(late_texts), "late_theory_atom_programs": len(late_texts), "prefix_checks": npairs, "example_prefix_checks_informational": nex, "horizons": "0..3 (0..4 for late theory atoms)",
             "sample": {"program": texts[0]}}, fails
 
 def replay(obj):
